@@ -13,9 +13,10 @@ DIR_SIZE = 4096
 
 
 class Node:
-    __slots__ = ('kind', 'cid', 'mtime', 'ino', 'payload')
+    __slots__ = ('kind', 'cid', 'mtime', 'ino', 'payload', 'perm')
 
-    def __init__(self, kind, cid=None, mtime=None, ino=None, payload=None):
+    def __init__(self, kind, cid=None, mtime=None, ino=None, payload=None, perm=None):
+        self.perm = perm            # permission bits of a regular file (None: the default 0o644)
         self.kind = kind
         self.cid = cid
         self.mtime = mtime
@@ -89,7 +90,7 @@ class ModelFS:
         c.root = self.root
         c.nodes = {}
         for p, n in self.nodes.items():
-            c.nodes[p] = Node(n.kind, n.cid, n.mtime, n.ino, n.payload)
+            c.nodes[p] = Node(n.kind, n.cid, n.mtime, n.ino, n.payload, n.perm)
         c.next_ino = self.next_ino
         c.hooks = []
         c.actor = 'lib'
@@ -280,9 +281,13 @@ class ModelFS:
             cid = self.eng.fresh_int('wcid')
         if mtime is None:
             mtime = self.eng.fresh_int('wmt', 0, 2 ** 62)
-        n = Node(FILE, cid, mtime, ino, payload)
+        n = Node(FILE, cid, mtime, ino, payload, self.nodes[p].perm if k == FILE else None)     # truncating keeps the mode
         self.nodes[p] = n
         return n
+
+    def chmod(self, p, perm):
+        self._call('chmod', (p,), True)
+        self.lookup(p).perm = perm
 
     def utime(self, p, mtime):
         self._call('utime', (p,), True)
